@@ -4,6 +4,7 @@
 def config(T):
     return {
         "C01": dict(pkg="c01", tests=[T("TestPinned"), T("TestExec", 2400, 80000, sq=4, st=16, race=True), T("TestExecUnionEdge", 800, 16000, sq=2, st=8)]),
+        "C02": dict(pkg="c02", tests=[T("TestConverge", 800, 32000, sq=8, st=16, race=True)]),
         "C03": dict(pkg="c03", tests=[T("TestPinned"), T("TestRoundTrip", 12000, 400000, sq=4, st=16)]),
         "C07": dict(pkg="c07", tests=[T("TestLiveSQL", 800, 32000, sq=8, st=16, race=True)]),
         "C08": dict(pkg="c08", tests=[T("TestCache", 2400, 96000, sq=8, st=16, race=True)]),
@@ -11,6 +12,7 @@ def config(T):
         "C12": dict(pkg="c12", tests=[T("TestShardLimit", 2400, 64000, sq=4, st=16)]),
         "C13": dict(pkg="c13", tests=[T("TestCodec", 6000, 300000, sq=4, st=16), T("TestProtoFilter", 3000, 100000, sq=2, st=8)]),
         "C16": dict(pkg="c16", tests=[T("TestDirect", 4000, 120000, sq=4, st=12), T("TestSocket", 600, 12000, sq=4, st=8, race=True)]),
+        "C17": dict(pkg="c17", tests=[T("TestPinned"), T("TestLifecycle", 640, 24000, sq=8, st=16, race=True)]),
         "C18": dict(pkg="c18", tests=[T("TestArgs", 8000, 400000, sq=4, st=16), T("TestArgsNegative", 4000, 100000, sq=2, st=8)]),
         "C19": dict(pkg="c19", tests=[T("TestPinned"), T("TestDirectives", 4000, 160000, sq=4, st=16)]),
         "C20": dict(pkg="c20", tests=[T("TestPinned"), T("TestLimiter", 480, 24000, sq=8, st=16, race=True)]),
